@@ -155,4 +155,124 @@ func TestVerifReason(t *testing.T) {
 		flush(false)
 	}
 	flush(true)
+
+	// the same clause on environments of real functions: pairs of definitions of a function t are
+	// compiled, their environments computed by functionEnv and compared by diffEnv; the parts
+	// that differ are the top-level keys present on one side only or holding unequal (or
+	// differently written) values
+	for i, pr := range rPairs {
+		ev := map[string]any{"ev": "RealReason", "name": pr[0], "outcome": "ok", "eq": false, "reason": "",
+			"named": []string{}, "unknown": []string{}, "differ": []string{}}
+		func() {
+			defer func() {
+				if r := recover(); r != nil {
+					ev["outcome"] = "panic"
+				}
+			}()
+			envOf := func(src string) (*starlark.Dict, error) {
+				globals, err := starlark.ExecFile(&starlark.Thread{Name: "reason"}, "BUILD.dawn", src, nil)
+				if err != nil {
+					return nil, err
+				}
+				fn, ok := globals["t"].(*starlark.Function)
+				if !ok {
+					return nil, fmt.Errorf("no function t")
+				}
+				env, err := functionEnv(fn)
+				if err != nil {
+					return nil, err
+				}
+				d, ok := env.(*starlark.Dict)
+				if !ok {
+					return nil, fmt.Errorf("environment is a %s", env.Type())
+				}
+				return d, nil
+			}
+			oldEnv, err1 := envOf(pr[1])
+			newEnv, err2 := envOf(pr[2])
+			if err1 != nil || err2 != nil {
+				ev["outcome"] = "harness"
+				return
+			}
+			differ := []string{}
+			seen := map[string]bool{}
+			for _, env := range []*starlark.Dict{oldEnv, newEnv} {
+				for _, k := range env.Keys() {
+					name, _ := starlark.AsString(k)
+					if seen[name] {
+						continue
+					}
+					seen[name] = true
+					ov, inOld, _ := oldEnv.Get(k)
+					nv, inNew, _ := newEnv.Get(k)
+					d := inOld != inNew
+					if !d {
+						eq, err := starlark.EqualDepth(ov, nv, 1000)
+						d = err != nil || !eq || ov.String() != nv.String()
+					}
+					if d {
+						differ = append(differ, name)
+					}
+				}
+			}
+			ev["differ"] = differ
+			f := &function{oldEnv: oldEnv, newEnv: newEnv}
+			eq, reason, _, err := f.diffEnv()
+			if err != nil {
+				ev["outcome"] = "error"
+				return
+			}
+			ev["eq"], ev["reason"] = eq, reason
+			named, unknown := []string{}, []string{}
+			if !eq {
+				body, ok := strings.CutSuffix(reason, " changed")
+				if !ok {
+					unknown = append(unknown, reason)
+				}
+				body = strings.ReplaceAll(body, ", and ", ", ")
+				body = strings.ReplaceAll(body, " and ", ", ")
+				for _, tok := range strings.Split(body, ", ") {
+					if seen[tok] {
+						named = append(named, tok)
+					} else {
+						unknown = append(unknown, tok)
+					}
+				}
+			}
+			ev["named"], ev["unknown"] = named, unknown
+		}()
+		if ev["outcome"] != "harness" {
+			batch = append(batch, ev)
+		} else {
+			t.Logf("pair %d (%s) does not compile", i, pr[0])
+		}
+	}
+	flush(true)
+}
+
+// pairs of definitions of t: name, old text, new text
+var rPairs = [][3]string{
+	{"same", "def t():\n  return 1\n", "def t():\n  return 1\n"},
+	{"constant", "def t():\n  return 1\n", "def t():\n  return 2\n"},
+	{"constant-rewritten", "def t():\n  return 1\n", "def t():\n  return 1.0\n"},
+	{"global", "x = 1\ndef t():\n  return x\n", "x = 2\ndef t():\n  return x\n"},
+	{"global-rewritten", "x = 1\ndef t():\n  return x\n", "x = 1.0\ndef t():\n  return x\n"},
+	{"global-and-constant", "x = 1\ndef t():\n  return [x, 'a']\n", "x = 2\ndef t():\n  return [x, 'b']\n"},
+	{"global-rewritten-and-constant", "x = 1\ndef t():\n  return [x, 'a']\n", "x = 1.0\ndef t():\n  return [x, 'b']\n"},
+	{"default", "def t(a=1):\n  return a\n", "def t(a=2):\n  return a\n"},
+	{"default-added", "def t(a):\n  return a\n", "def t(a=2):\n  return a\n"},
+	{"free-variable", "def mk(v):\n  def t():\n    return v\n  return t\nt = mk(1)\n", "def mk(v):\n  def t():\n    return v\n  return t\nt = mk(2)\n"},
+	{"names", "def t(x):\n  return x.a\n", "def t(x):\n  return x.b\n"},
+	{"universal", "def t(x):\n  return len(x)\n", "def t(x):\n  return sorted(x)\n"},
+	{"nested-function", "def t():\n  def h():\n    return 1\n  return h()\n", "def t():\n  def h():\n    return 2\n  return h()\n"},
+	{"helper-body", "def h():\n  return 1\ndef t():\n  return h()\n", "def h():\n  return 2\ndef t():\n  return h()\n"},
+	{"code-only", "def t(a, b):\n  return a + b\n", "def t(a, b):\n  return a - b\n"},
+	{"positional-becomes-variadic", "def t(a):\n  pass\n", "def t(*a):\n  pass\n"},
+	{"variadic-becomes-keywords", "def t(*a):\n  pass\n", "def t(**a):\n  pass\n"},
+	{"parameter-renamed", "def t(a):\n  return a\n", "def t(b):\n  return b\n"},
+	{"parameter-becomes-keyword-only", "def t(a, b):\n  pass\n", "def t(a, *, b):\n  pass\n"},
+	{"signature-and-body", "def t(a):\n  return 1\n", "def t(*a):\n  return a\n"},
+	{"signature-and-constant", "def t(a):\n  return 1\n", "def t(*a):\n  return 2\n"},
+	{"signature-and-global", "x = 1\ndef t(a):\n  return x\n", "x = 2\ndef t(*a):\n  return x\n"},
+	{"everything", "x = 1\ndef t(a, d=1):\n  return [x, 'a', len(a), a.p]\n", "x = 2\ndef t(*a, d=2):\n  return [x, 'b', sorted(a), a.q]\n"},
 }
